@@ -511,6 +511,17 @@ def drv_c09(tier, rng):
                 req['biases'].append(b)
             if first is None:
                 first = req
+                if rng.random() < 0.5:     # the request that is repeated relies on defaults for every optional setting
+                    OPTIONAL = ('newCriterionImportance', 'referenceCriterionType', 'newCriterionRandomSeed', 'multiplier', 'alpha', 'queryNumber',
+                                'allowedValuesRangeScaling', 'disallowNegativeValues', 'ordering', 'mixingRatio', 'newCriterionScaling', 'applyOnNotConsidered')
+
+                    def strip_opt(v):
+                        if isinstance(v, dict):
+                            return {k: strip_opt(x) for k, x in v.items() if k not in OPTIONAL}
+                        if isinstance(v, list):
+                            return [strip_opt(x) for x in v]
+                        return v
+                    req['biases'] = strip_opt(req['biases'])
             hist.append(req)
         if rng.random() < 0.5:      # a rejected request in between must not leave anything behind either
             bad = rng.choice(list(service.bias_mutations(rng, first)) + list(service.mutations(rng, first)))
@@ -916,11 +927,11 @@ PROPS = {
             'rule': 'non-trivial = accepted ELECTRE III request whose two preorders are not both a single class; distinct by request'},
     'C05': {'level_text': 'exact-rational reference model Electre!CredMatrix + Electre!DistilP: stage 2 on ALL 3x3 credibility matrices over a quarter grid and random 4..6-alternative matrices over sixteenths through RankAscending/RankDescending/EvaluateRanking; stage 1 (credibility matrix via hook H2) and end-to-end indices/links on TLC-enumerated and random threshold configurations through MakeDecision; MC_Electre/MC_ElectreE check classes consecutive, progress, cut levels never rise, stepwise = recursive definition', 'level_note': "instances whose exact comparison ties involve non-dyadic numbers are flagged fragile by the spec and excluded from index equality (float arithmetic); constant thresholds only (the property's domain)", 'families': ['electre_s2', 'electre'], 'nontrivial': nt_electre2,
             'rule': 'non-trivial = instance whose two preorders are not both a single class; distinct by instance'},
-    'C12': {'level_text': 'AspectElim.tla (one examined alternative per step) model-checked with ElimSound / SurvivorsSound / StopRule; per entry: reported level, criterion and threshold equal the spec-derived level (Levels.tla) and the alternative passed every earlier check; ranking = survivors then reverse elimination classes (reference run, existential over tie-broken criteria orders / seeded orders)', 'level_note': 'same-check eliminations compared as unordered classes; generated levels only where exactly representable', 'families': ['aspect'], 'nontrivial': nt_heur,
+    'C12': {'level_text': 'AspectElim.tla (one examined alternative per step) model-checked with ElimSound / SurvivorsSound / StopRule; per entry: reported level, criterion and threshold equal the spec-derived level (Levels.tla) and the alternative passed every earlier check; ranking = survivors then reverse elimination classes (reference run, existential over tie-broken criteria orders / seeded orders)', 'level_note': 'same-check eliminations compared as unordered classes; generated levels only where exactly representable', 'families': ['aspect', 'pipeline'], 'cap': {'quick': 1500}, 'nontrivial': nt_heur,
             'rule': 'non-trivial = accepted aspect-elimination request ranking >= 3 alternatives on >= 2 different level indices; distinct by request'},
-    'C13': {'level_text': 'Satisfaction.tla model-checked with AcceptedSound / LeftSound / Ordered; per entry: thresholds are level thresholdsIndex of the spec-derived series, satisfied on every criterion, every earlier level failed; leftovers report #levels and the worst range ends; acceptance order equals the reference run', 'level_note': 'explicit (also non-monotone) threshold lists and generated series where exactly representable', 'families': ['satisfaction'], 'nontrivial': nt_heur,
+    'C13': {'level_text': 'Satisfaction.tla model-checked with AcceptedSound / LeftSound / Ordered; per entry: thresholds are level thresholdsIndex of the spec-derived series, satisfied on every criterion, every earlier level failed; leftovers report #levels and the worst range ends; acceptance order equals the reference run', 'level_note': 'explicit (also non-monotone) threshold lists and generated series where exactly representable', 'families': ['satisfaction', 'pipeline'], 'cap': {'quick': 1500}, 'nontrivial': nt_heur,
             'rule': 'non-trivial = accepted satisfaction request ranking >= 3 alternatives on >= 2 different level indices; distinct by request'},
-    'C14': {'level_text': "Levels.tla iterator (r' = Upd(r) while HasNext) model-checked: strictly monotone, in [0,1], finite, first-level rule, stepwise = closed form; every parameter set of the grid (valid and invalid) drives the REAL iterators wired in main.go through Find/Initialize/HasNext/Next and the whole series is compared; decimal parameters (0.001, 0.3, 0.999) contract-only; end to end through both heuristics", 'level_note': 'exact series equality on dyadic parameters; non-dyadic ones: monotone, finite, inside the range, rejection iff out of domain', 'families': ['levels', 'aspect', 'satisfaction'], 'nontrivial': nt_levels,
+    'C14': {'level_text': "Levels.tla iterator (r' = Upd(r) while HasNext) model-checked: strictly monotone, in [0,1], finite, first-level rule, stepwise = closed form; every parameter set of the grid (valid and invalid) drives the REAL iterators wired in main.go through Find/Initialize/HasNext/Next and the whole series is compared; decimal parameters (0.001, 0.3, 0.999) contract-only; end to end through both heuristics", 'level_note': 'exact series equality on dyadic parameters; non-dyadic ones: monotone, finite, inside the range, rejection iff out of domain', 'families': ['levels', 'aspect', 'satisfaction', 'pipeline'], 'cap': {'quick': 1500}, 'nontrivial': nt_levels,
             'rule': 'non-trivial = valid parameter set whose real iterator yields >= 2 levels; distinct by parameter set + data set'},
     'C11': {'level_text': 'Majority.tla tournament state machine (one comparison per step; `random` policy branches) model-checked with Partition / EntriesFaithful / FinalRanking; TLC recomputes both scores of every entry from the values finally evaluated, checks opponent position, draw policy for known search order, and equality with the reference run (existential search over orders / draws for seeded orders and the random policy); decimal weights whose sums differ only in the last float bit', 'level_note': "existential search bounded to 5 alternatives; the winner's own reported value is left open by the property", 'families': ['majority'], 'nontrivial': nt_majority,
             'rule': 'non-trivial = accepted majority request with >= 3 ranked alternatives and at least one drawn comparison; distinct by request'},
